@@ -150,15 +150,18 @@ fn gen_digits(t: &mut Tape) -> Vec<u32> {
 
 pub fn run(tape: &[u8], cx: &Cx) -> Outcome {
     let mut t = Tape::new(tape);
-    let alpha: [u32; 5] = [0x61, 0x62, 0x63, 0, 0x2FFFF];
+    // a, b, c, the ends of the alphabet, characters that agree with 'a' on their low 8 / 16 bits, and the
+    // code points around which other orders differ from the numeric one (UTF-16 code units, Rust `char`s
+    // with U+FFFD substituted for surrogates): 0xD800, 0xDFFF, 0xE000, 0xFFFD, 0xFFFF, 0x10000
+    let alpha: [u32; 13] = [0x61, 0x62, 0x63, 0, 0x2FFFF, 0x161, 0x10061, 0xD800, 0xDFFF, 0xE000, 0xFFFD, 0xFFFF, 0x10000];
     // strings sharing a common prefix
     let plen = t.choose(7);
-    let prefix: Vec<u32> = (0..plen).map(|_| alpha[t.weighted(&[5, 4, 2, 1, 1])]).collect();
+    let prefix: Vec<u32> = (0..plen).map(|_| alpha[t.weighted(&[10, 8, 4, 2, 2, 1, 1, 1, 1, 1, 1, 1, 1])]).collect();
     let mk = |t: &mut Tape| -> Vec<u32> {
         let mut v = if t.bool_p(200) { prefix.clone() } else { vec![] };
         let n = t.choose(4);
         for _ in 0..n {
-            v.push(alpha[t.weighted(&[5, 4, 2, 1, 1])]);
+            v.push(alpha[t.weighted(&[10, 8, 4, 2, 2, 1, 1, 1, 1, 1, 1, 1, 1])]);
         }
         v
     };
@@ -171,7 +174,7 @@ pub fn run(tape: &[u8], cx: &Cx) -> Outcome {
         if t.bool_p(85) {
             len = t.pick(&[15usize, 16, 17, 31, 32, 33, 63, 64, 65, 127, 128, 129]);
         }
-        let base: Vec<u32> = (0..len).map(|_| alpha[t.weighted(&[5, 4, 2, 1, 1])]).collect();
+        let base: Vec<u32> = (0..len).map(|_| alpha[t.weighted(&[10, 8, 4, 2, 2, 1, 1, 1, 1, 1, 1, 1, 1])]).collect();
         let edit = |t: &mut Tape, base: &Vec<u32>| -> Vec<u32> {
             let mut v = base.clone();
             match t.choose(5) {
@@ -182,7 +185,7 @@ pub fn run(tape: &[u8], cx: &Cx) -> Outcome {
                 }
                 2 => {
                     let k = t.choose(v.len());
-                    v[k] = alpha[t.choose(5)];
+                    v[k] = alpha[t.choose(13)];
                 }
                 3 => {
                     let n = 1 + t.choose(20);
@@ -226,6 +229,8 @@ pub fn run(tape: &[u8], cx: &Cx) -> Outcome {
     check_int(n, &mut o);
     check_code(&a, &mut o);
     check_code(&digits[..digits.len().min(1)], &mut o);
+    check_code(&digits, &mut o);
+    check_code(&dirty, &mut o);
     let big = r7::to_int(&digits).map_or(false, |v| v >= (1u128 << 31));
     let dirty_big = r7::to_int(&dirty[..pos]).map_or(false, |v| v >= (1u128 << 31));
     let common = a.iter().zip(b.iter()).take_while(|(x, y)| x == y).count();
@@ -255,6 +260,37 @@ pub fn enumerate(thorough: bool, part: usize, parts: usize, sink: &mut EnumSink)
         check_code(&[x.min(r7::MAX_CHAR)], &mut o);
         sink.case(&o, true, || format!("code point {:#x}", x));
         x += parts as u32;
+    }
+    // order: every triple of strings of length <= 2 over the code points where other orders (UTF-16 code
+    // units, Rust chars with U+FFFD for surrogates, truncated characters) differ from the numeric one
+    {
+        let seam: [u32; 10] = [0, 0x61, 0x161, 0xD800, 0xDFFF, 0xE000, 0xFFFD, 0xFFFF, 0x10000, r7::MAX_CHAR];
+        let mut words: Vec<Vec<u32>> = vec![vec![]];
+        for &a in &seam {
+            words.push(vec![a]);
+            for &b in &seam {
+                words.push(vec![a, b]);
+            }
+        }
+        for (i, a) in words.iter().enumerate() {
+            if i % parts != part {
+                continue;
+            }
+            for b in &words {
+                let mut o = Outcome::default();
+                // the third string varies over the one-character words only (transitivity through them)
+                for c in words.iter().take(1 + seam.len()) {
+                    check_order(a, b, c, &mut o);
+                }
+                sink.case(&o, a != b && !a.is_empty() && !b.is_empty() && a[0] == b[0], || format!("order on {} {}", show_str(a), show_str(b)));
+            }
+            if sink.failed() {
+                return;
+            }
+        }
+        if part == 0 {
+            sink.stats.exhaustive_spaces.push("str_lt / str_le on all pairs of strings of length <= 2 over {0, a, 0x161, 0xD800, 0xDFFF, 0xE000, 0xFFFD, 0xFFFF, 0x10000, MAX} (with every third string of length <= 1)".to_string());
+        }
     }
     // windows of values around the i32 / u32 boundaries, with 0..2 leading zeros and a trailing digit
     let centers: [u64; 8] = [2147483647, 4294967296, 21474836470, 42949672960, 6442450944, 8589934592, 214748364700, 10000000000];
